@@ -490,6 +490,11 @@ impl Dump {
                     let same_keys = v.len() == w.len() && v.iter().zip(w.iter()).all(|(a, b)| a.0 == b.0);
                     let tag = if same_keys { "C12" } else { "C09" };
                     out.push((tag, format!("values of {id}: {me} {v:?} vs {them} {w:?}")));
+                    if *id < 0 && !same_keys {
+                        // C08: removing a node removes its edges together with their properties, so an edge
+                        // must never show properties it was not given (e.g. inherited through id reuse)
+                        out.push(("C08", format!("properties of edge {id}: {me} {v:?} vs {them} {w:?}")));
+                    }
                 }
                 None => out.push(("C09", format!("values of {id}: {me} {v:?} vs {them} nothing"))),
             }
